@@ -145,6 +145,7 @@ type Case struct {
 	FaultAt  int        `json:"faultat,omitempty"`  // inject an I/O error at the n-th eligible call (+1; 0 = none)
 	PowerPct int        `json:"powerpct,omitempty"` // crash arms: percentage of positions that also get power-loss cuts
 	Cuts     int        `json:"cuts,omitempty"`     // power-loss cut vectors per chosen position
+	Knobs    map[string]int `json:"knobs,omitempty"` // arm-specific budgets (bit flips per run, ...)
 	Adaptive bool       `json:"-"`                  // generation in progress: ops are produced while executing
 }
 
